@@ -163,7 +163,7 @@ def c18(tier, seed, wd, replay=None):
     if tier == "quick":
         run_part(run, "C18", "true-3cls-3args", consts("true", 3, 4), wd)
     else:
-        run_part(run, "C18", "true-3cls-7args", consts("true", 7, 5), wd, limit=60000)
+        run_part(run, "C18", "true-3cls-3args-5inst", consts("true", 3, 5), wd, limit=60000)
         run_part(run, "C18", "true-sim", consts("true", 7, 8), wd, simulate="num=200", depth=25, seed=seed + 3, limit=20000)
     run.exhaustive = True
     run.assumptions = ASSUME
